@@ -295,6 +295,9 @@ def rebuild_awareness(chk, scratch, env, cmd):
         chk.count('rebuild dry runs')
 
 
+F32_SIG = 'C19:compiled-negative-stride-writes-out-of-bounds'
+
+
 def build_and_run(chk, cases, ref_results, ref_names, stats):
     """(b): documented build in a scratch copy, kernels run in a worker process"""
     tmp = tempfile.mkdtemp(prefix='c19_build_')
@@ -336,6 +339,29 @@ def build_and_run(chk, cases, ref_results, ref_names, stats):
                 chk.count('compiled: %s takes function arguments, not callable from Python (%s)' % (c['kernel'], o[1].split(':')[0]))
                 continue
             judge(chk, 'compiled', c, c['kernel'], r, o, stats)
+        # finding F32 (known): a 1-D array argument with a NEGATIVE stride (points in decreasing order, `x[::-1]`).  Its own worker
+        # process: the compiled kernel may write behind the output array
+        from pygyro.splines import spline_eval_funcs as ref_nu
+        knots, deg, coeffs, pts = K.layout_case()
+        want = np.empty(len(pts))
+        ref_nu.nu_eval_spline_1d_vector(pts[::-1], knots, deg, coeffs, want, 0)
+        fl = os.path.join(tmp, 'layout.pkl')
+        w2 = subprocess.run([sys.executable, os.path.join(str(common.VERIF), 'harness', 'kernel_args.py'), '--layout-worker', scratch, fl],
+                            capture_output=True, text=True, timeout=120, env=dict(env, PYTHONPATH=''))
+        case = {'kernel': 'nu_eval_spline_1d_vector', 'points': 'x[::-1] with x = %s (a reversed view: stride -8 bytes)' % pts.tolist(),
+                'build': ' '.join(cmd), 'pyccel': chk.notes.get('pyccel_version')}
+        if w2.returncode != 0 or not os.path.exists(fl):
+            chk.fail(F32_SIG, 'compiled nu_eval_spline_1d_vector with the points given as a reversed view: the worker process died (exit %s: %s)'
+                     % (w2.returncode, (w2.stderr or '')[-160:]), case)
+        else:
+            o2 = pickle.load(open(fl, 'rb'))
+            if any(g != -777.0 for g in o2['guards']):
+                chk.fail(F32_SIG, 'compiled nu_eval_spline_1d_vector with the points given as a reversed view writes behind the end of the output '
+                         'array (guard entries %s), the interpreted source does not' % o2['guards'], case, expected=[-777.0] * 4, actual=o2['guards'])
+            elif not np.allclose(o2['values'], want, rtol=1e-12, atol=1e-13):
+                chk.fail('C19:compiled-reversed-view', 'compiled nu_eval_spline_1d_vector with the points given as a reversed view returns other values '
+                         'than the interpreted source', case, expected=want.tolist(), actual=o2['values'])
+            chk.count('compiled: reversed view of the points (finding F32 replay)')
     finally:
         shutil.rmtree(tmp, ignore_errors=True)
 
